@@ -1,0 +1,42 @@
+//go:build verif
+
+// Contracts for the govc verifier (see /verif/DESIGN.md). Comment-only file.
+package coins
+
+//@ # ---------------------------------------------------------------- abstract views of the coins module
+//@ ghost coinExists(c *Coins, id types.CoinID) bool
+//@ ghost coinVolume(c *Coins, id types.CoinID) int
+//@ ghost coinReserve(c *Coins, id types.CoinID) int
+//@ ghost coinsCache() int
+
+//@ # ASSUMED representation axioms of the lazily loading getters
+//@ func (*Coins).Exists
+//@   trusted
+//@   ensures result <==> (id == 0 || coinExists(c, id))
+//@   modifies coinsCache
+//@ func (*Coins).GetCoin
+//@   trusted
+//@   ensures (result != nil) <==> (id == 0 || coinExists(c, id))
+//@   modifies coinsCache
+
+//@ # ASSUMED effect summaries (to be replaced by proofs against the model fields)
+//@ func (*Coins).SubVolume
+//@   trusted
+//@   requires amount != nil
+//@   ensures id != 0 ==> coinVolume(c, id) == old(coinVolume(c, id)) - old(amount.val) && ledgerVolume(c.bus.checker, id) == old(ledgerVolume(c.bus.checker, id)) - old(amount.val)
+//@   modifies coinVolume(c, id), ledgerVolume(c.bus.checker, id), coinsCache
+//@ func (*Coins).AddVolume
+//@   trusted
+//@   requires amount != nil
+//@   ensures id != 0 ==> coinVolume(c, id) == old(coinVolume(c, id)) + old(amount.val) && ledgerVolume(c.bus.checker, id) == old(ledgerVolume(c.bus.checker, id)) + old(amount.val)
+//@   modifies coinVolume(c, id), ledgerVolume(c.bus.checker, id), coinsCache
+//@ func (*Coins).SubReserve
+//@   trusted
+//@   requires amount != nil
+//@   ensures id != 0 ==> coinReserve(c, id) == old(coinReserve(c, id)) - old(amount.val) && ledgerDelta(c.bus.checker, 0) == old(ledgerDelta(c.bus.checker, 0)) - old(amount.val)
+//@   modifies coinReserve(c, id), ledgerDelta(c.bus.checker, 0), coinsCache
+//@ func (*Coins).AddReserve
+//@   trusted
+//@   requires amount != nil
+//@   ensures id != 0 ==> coinReserve(c, id) == old(coinReserve(c, id)) + old(amount.val) && ledgerDelta(c.bus.checker, 0) == old(ledgerDelta(c.bus.checker, 0)) + old(amount.val)
+//@   modifies coinReserve(c, id), ledgerDelta(c.bus.checker, 0), coinsCache
